@@ -374,6 +374,17 @@ class Inliner:
                 tail = [ast.Expr(value=rv)] if not isinstance(rv, (ast.Constant, ast.Name)) else []
             elif kind == "assign":
                 tail = [ast.Assign(targets=st.targets, value=rv)]
+                # `t = helper(..)` where the helper builds a local and returns it: the local IS t (no `t = local` copy is left behind)
+                if isinstance(rv, ast.Name) and rv.id.startswith("__inl") and len(st.targets) == 1 and isinstance(st.targets[0], ast.Name):
+                    tn = st.targets[0].id
+                    mentioned = any(isinstance(k, ast.Name) and k.id == tn for part in (body, prologue, [call]) for b_ in part for k in ast.walk(b_))
+                    is_local = any(isinstance(k, ast.Name) and k.id == rv.id and isinstance(k.ctx, ast.Store) for b_ in body for k in ast.walk(b_))
+                    if not mentioned and is_local:
+                        for b_ in body:
+                            for k in ast.walk(b_):
+                                if isinstance(k, ast.Name) and k.id == rv.id:
+                                    k.id = tn
+                        tail = []
             else:
                 tail = [ast.Return(value=rv)]
         else:
